@@ -61,9 +61,9 @@ type c05Scan struct {
 		NumberOfRows, MaxResultSize int
 	} `json:"opt"`
 	Exp struct {
-		Start, Stop                                             []int
+		Start, Stop                                                       []int
 		Reversed, CloseScanner, Renew, HandlesPartials, HandlesHeartbeats bool
-		NumberOfRows, MaxResultSize                             int
+		NumberOfRows, MaxResultSize                                       int
 	} `json:"exp"`
 }
 
@@ -346,7 +346,14 @@ func TestVerifC05Content(t *testing.T) {
 					}
 					var opts []func(hrpc.Call) error
 					if !m.Latest {
-						opts = append(opts, hrpc.TimestampUint64(binary.BigEndian.Uint64(c05bs(m.Ts))))
+						ts := binary.BigEndian.Uint64(c05bs(m.Ts))
+						if ts > 0 && ts < 1<<40 && x.Durability%2 == 1 {
+							// the time.Time form of the option: an instant 0.7 ms into the millisecond ts - the wire carries the
+							// millisecond the instant falls in
+							opts = append(opts, hrpc.Timestamp(time.Unix(0, int64(ts)*1e6+700_000)))
+						} else {
+							opts = append(opts, hrpc.TimestampUint64(ts))
+						}
 					}
 					if m.OneVersion {
 						opts = append(opts, hrpc.DeleteOneVersion())
